@@ -21,7 +21,16 @@ Judge(c) ==
       V(cell) == c.vals[cell[1]][CHOOSE k \in 1..Len(c.rows) : c.rows[k] = cell[2]]
       oncycle == {cell \in cells : POnCycle(sm, cr, cell)}
       free == {cell \in cells : ~PReachesCycle(sm, cr, cell)}
+      \* phase 2: column c.col2 got the constant formula `1`; the new program's meaning must hold
+      sm2 == [x \in cols |-> IF x = c.col2 THEN {} ELSE sm[x]]
+      cr2 == [x \in cols |-> IF x = c.col2 THEN {} ELSE cr[x]]
+      V2(cell) == c.vals2[cell[1]][CHOOSE k \in 1..Len(c.rows) : c.rows[k] = cell[2]]
+      oncycle2 == {cell \in cells : POnCycle(sm2, cr2, cell)}
+      free2 == {cell \in cells : ~PReachesCycle(sm2, cr2, cell)}
   IN (IF \A cell \in oncycle : V(cell) = Circ THEN {} ELSE {"C18.cycle-cell"})
+     \cup (IF c.col2 = "" \/ (\A cell \in oncycle2 : V2(cell) = Circ) THEN {} ELSE {"C18.cycle-cell-after-edit"})
+     \cup (IF c.col2 = "" \/ (\A cell \in free2 : V2(cell) = PSem(sm2, cr2, cell)) THEN {}
+          ELSE {"C06.value-after-edit"})
      \cup (IF \A cell \in free : V(cell) = PSem(sm, cr, cell) THEN {} ELSE {"C06.value"})
      \* the stored actions of two schedules differ at most in order (canonical multisets equal)
      \cup (IF c.sig = c.ref_sig THEN {} ELSE {"C06.actions"})
